@@ -23,6 +23,7 @@ EXPLANATION = (
     "written onto the settings object. Equality of the effective configuration for concrete values is "
     "not decided."
     " R4: relative paths are rooted at the project file's directory on every entry path. R8: the markdown metadata grammar distinguishes key lines from continuation lines. R2 is decided on the inlined event trace of convert_setting."
+    " Added after waves 6/7 - repeated metadata keys accumulate (lists agree between formats); CLI writes are guarded by schema membership and non-None, decided propositionally; path normalisation depends on the project directory only."
 )
 ASSUMPTIONS = ["argparse dest derivation: explicit dest= or the first long option name"]
 
@@ -696,6 +697,12 @@ def r13_metadata_accumulates(ctx, rep):
         raise AnalysisError(f"meta_preprocessor: only {n} stores into the metadata table found")
 
 
+def r14_paths_do_not_depend_on_cwd(ctx, rep):
+    """a relative path option is resolved against the project file's directory and nothing else (shared with C19.R3)"""
+    from . import c19
+    c19.r3_resolved_paths(ctx, rep)
+
+
 RULES = [
     RuleSpec("C15.R4", r4_path_rooting, "relative paths are rooted at the project file's directory", floor=2),
     RuleSpec("C15.R8", r8_metadata_grammar, "markdown metadata grammar: key lines vs continuation lines", floor=2),
@@ -709,4 +716,5 @@ RULES = [
     RuleSpec("C15.R11", r11_computed_fields_are_not_options, "computed (init=False) fields are not options", floor=2),
     RuleSpec("C15.R9", r9_values_recorded_as_written, "values are recorded as written; TOML values stay native", floor=2),
     RuleSpec("C15.R13", r13_metadata_accumulates, "repeated metadata keys accumulate (lists agree between formats)", floor=2),
+    RuleSpec("C15.R14", r14_paths_do_not_depend_on_cwd, "path normalisation is a function of the project directory (shared with C19.R3)", floor=1),
 ]
